@@ -4,6 +4,11 @@
 
 package mapr
 
+// (C15) The outfile, its .tmp and its .query companions are created, replaced
+// and removed by these three functions and nothing else in the package; they
+// carry the publish-by-rename contracts below.
+//@ fs-writers-only (*GroupSet).writeQueryFile, (*GroupSet).getOutfileFD, (*GroupSet).resultWriteUnformatted
+
 // ---- data structures ---------------------------------------------------------
 //@ type AggregateSet invariant [maps-made] self.FValues != nil && self.SValues != nil
 //@ type GroupSet invariant [sets-made] self.sets != nil && allNonNil(self.sets)
